@@ -1446,7 +1446,7 @@ pub fn run_c21(ctx: &Ctx) -> i32 {
     );
     verif_hooks::set_handler(Some(Arc::new(hook)));
     let tier = ctx.tier();
-    let n = tier.pick(400, 12_000);
+    let n = tier.pick(2_000, 12_000);
     for no_lock in [false, true] {
         verif_hooks::set_locks_disabled(no_lock);
         par_cases(ctx, n, threads(), |i, cs, rng| {
@@ -2136,7 +2136,7 @@ pub fn run_c22(ctx: &Ctx) -> i32 {
         ctx.assume(&format!("VERIF_SOFT_CLAUSES set: counted, not reported: {soft:?}"));
     }
     ctx.assume("merge_commit_trees / path_value / entries() are trusted here (monitored by C07/C08)");
-    let n = tier.pick(160, 6000);
+    let n = tier.pick(320, 6000);
     par_cases(ctx, n, threads(), |i, cs, rng| {
         let plan = c22::gen_plan(rng, tier == Tier::Thorough && i % 4 == 0);
         let mut seen = c22::Seen::default();
